@@ -368,20 +368,25 @@ func (osObj *VirtualOS) findMount(path string) (*Mount, string, bool) {
 		path += "/"
 	}
 	var match *Mount
+	// Mount points may be given with or without a trailing slash
+	matchPoint := ""
+	trimmedPath := strings.TrimSuffix(path, "/")
 	for k, v := range osObj.mounts {
-		if k == path {
+		point := strings.TrimSuffix(k, "/")
+		if point == trimmedPath {
 			// Exact match
 			return v, "/", true
 		}
-		if strings.HasPrefix(path, strings.TrimSuffix(k, "/")+"/") {
+		if strings.HasPrefix(path, point+"/") {
 			// Prefix match. Keep looking to confirm this is the longest match.
-			if match == nil || len(k) > len(match.Target) {
+			if match == nil || len(point) > len(matchPoint) {
 				match = v
+				matchPoint = point
 			}
 		}
 	}
 	if match != nil {
-		relPath := strings.TrimPrefix(path, match.Target)
+		relPath := strings.TrimPrefix(path, matchPoint)
 		if relPath == "" {
 			relPath = "/"
 		}
